@@ -1,7 +1,7 @@
 # C06 — mutexes give mutual exclusion and always hand the lock on (structural part; DESIGN.md §5 C06)
 import re
 from engine.core import AnalysisBroken, P, T, callee_of, callee_short, cond_atoms, loc_of, strip, forward, block_path, walk
-from engine.kinds import LockFlow, FactFlow, CountFlow, check_guarded, always_followed_by
+from engine.kinds import LockFlow, FactFlow, CountFlow, check_guarded, always_followed_by, precedes_on_all_paths
 from .common import facts, lib, driver, witness, local_init
 
 EXPLANATION = (
@@ -17,7 +17,7 @@ ASSUMPTIONS = ["clang's CFG (with implicit destructors) is a faithful over-appro
                "the lock idioms in engine/kinds.py are the only ways these functions acquire or release mtx_",
                "detail::condition_variable::wait*/notify_one behave as decided under C02/C07"]
 THOROUGH_CONFIGS = [["-UNDEBUG", "-DPIKA_DEBUG"]]
-FLOORS = {"C06.R1": 8, "C06.R2": 4, "C06.R3": 2, "C06.R4": 4, "C06.R5": 6, "C06.R6": 6, "C06.R7": 5, "C06.R8": 6, "C06.R9": 6}
+FLOORS = {"C06.R1": 8, "C06.R2": 4, "C06.R3": 2, "C06.R4": 4, "C06.R5": 6, "C06.R6": 6, "C06.R7": 5, "C06.R8": 6, "C06.R9": 6, "C06.R10": 2}
 
 INVALID = "pika::threads::detail::invalid_thread_id"
 OWNER = "this->owner_id_"
@@ -57,6 +57,10 @@ def run(rep, tier):
                        "lock() returns only through a successful acquisition")
     rep.rule("C06.R6", "K4: recursive_mutex_impl: inner mutex taken before owner/recursion are set, released only at depth 0")
     rep.rule("C06.R7", "K9: lock types are neither copyable nor movable")
+    rep.rule("C06.R10", "K2 (the hand-off survives an exceptional exit): unlock() spends its single notify_one on the first waiter. The wait inside lock() / try_lock_until() can be "
+             "left by an exception (interruption is delivered when the waiter is resumed), after the waiter has already been taken off the queue: every wait of the two functions "
+             "sits in a try block, and its handler reaches the rethrow only after notify_one or on the branch where the mutex was seen owned - otherwise the notification dies with "
+             "the interrupted waiter and the next task blocked in lock() sleeps on a free mutex")
     rep.rule("C06.R9", "K2/K3 (shared with C02.R1/R2, C07.R5): the internal condition variable behind lock()/try_lock_until()/unlock(): a locker is queued while the "
                        "internal lock is held, before it is released, before the task suspends; the timeout/signaled result is read with the lock re-acquired; "
                        "notify_one resumes the dequeued waiter exactly once - otherwise an unlock's single wake-up is swallowed or lost")
@@ -238,7 +242,7 @@ def misuse_and_wait_rules(rep, fns):
         fb = ff.before.get((b, i))
         if fb is None:
             continue
-        refusal = ev.get("k") == "call" and callee_short(ev) in ("throws_if", "throw_exception") or ev.get("k") == "throw"
+        refusal = ev.get("k") == "call" and callee_short(ev) in ("throws_if", "throw_exception") or (ev.get("k") == "throw" and ev.get("e") is not None)      # 'throw;' re-raises somebody else's exception
         if refusal:
             n += 1
             if own(fb, True):
@@ -261,7 +265,7 @@ def misuse_and_wait_rules(rep, fns):
     exits = [(b, i, ev, ff.before.get((b, i)), must_w.get((b, i))) for b, i, ev in lk.all_events() if ev.get("k") == "return"]
     # falling off the end of the function is an exit as well
     for bid, blk in lk.blocks.items():
-        if any(t == lk.exit for _, t in lk.succs(bid)) and not any(e.get("k") == "return" for e in blk.events) and bid in ff.block_out:
+        if any(t == lk.exit for _, t in lk.succs(bid)) and not any(e.get("k") in ("return", "throw") for e in blk.events) and not blk.term.get("noreturn") and bid in ff.block_out:
             exits.append((bid, len(blk.events), {"loc": blk.events[-1].get("loc") if blk.events else lk.loc}, ff.block_out[bid], must_w_out.get(bid)))
     for b, i, ev, fb, mw in exits:
         if fb is None or "w" in (mw or ()):
@@ -302,6 +306,37 @@ def misuse_and_wait_rules(rep, fns):
             rep.bad("C06.R8", lk, lk.blocks[h].events[-1].get("loc", lk.loc) if lk.blocks[h].events else lk.loc, "spin-holding-lock",
                     "the loop that waits for owner_id_ == invalid can turn without cond_.wait: it spins while holding the "
                     "internal spinlock, which unlock() needs")
+
+    # ---- R10: exceptional exit from the wait
+    for fn10 in (lk, tlu):
+        short10 = fn10.qname.rsplit("::", 1)[-1]
+        ws10 = [(b, i, e) for b, i, e in fn10.all_events() if e.get("k") == "call" and callee_short(e) in ("wait", "wait_until") and e.get("recv") is not None and P(e["recv"]) == "this->cond_"]
+        if not ws10:
+            raise AnalysisBroken("%s: wait on cond_ not found" % short10)
+        rethrows = [(b, i, e) for b, i, e in fn10.all_events() if e.get("k") == "throw" and e.get("e") is None]
+        for b, i, e in ws10:
+            if "try" not in e or not rethrows:
+                rep.bad("C06.R10", fn10, loc_of(e), "exception-drops-handoff:" + short10, "%s waits on cond_ outside a try block: when the wait is left by an exception after unlock() has already "
+                        "notified this waiter (thread::interrupt() between the notification and the waiter's resumption), the hand-off is not passed on - the next task blocked in "
+                        "lock() stays blocked although the mutex is free" % short10)
+                continue
+
+            def seen_owned(blk, raw):
+                if blk.cond is None:
+                    return False
+                a, pos = cond_atoms(blk.cond)
+                if "owner_id_" not in a or "invalid_thread_id" not in a:
+                    return False
+                eq = "==" in a
+                # the branch on which owner_id_ != invalid (the mutex is owned: its owner's unlock will notify)
+                return raw.get("label") == (("false" if pos else "true") if eq else ("true" if pos else "false"))
+            okh = all(precedes_on_all_paths(fn10, lambda x: x.get("k") == "call" and callee_short(x) == "notify_one" and x.get("recv") is not None and P(x["recv"]) == "this->cond_",
+                                            (tb, ti), edge_pred=seen_owned, eh=True) for tb, ti, _ in rethrows)
+            if okh:
+                rep.ok("C06.R10", fn10, "%s: the handler around the wait passes the hand-off on (notify_one when the mutex is free) before it rethrows" % short10)
+            else:
+                rep.bad("C06.R10", fn10, loc_of(rethrows[0][2]), "exception-drops-handoff:" + short10, "%s rethrows from the handler around its wait on a path where the mutex was not seen owned and "
+                        "notify_one was not called: the hand-off of an unlock() that had already notified this waiter is lost" % short10)
 
     # --- try_lock_until: a 'false' after the wait needs a reason.  Evaluated: from the wait on, with "no timeout, no error,
     # mutex seen free" every path ends in 'return true' (any shape of the tests: separate ifs, one merged condition,
